@@ -74,6 +74,9 @@ def opVm (j : Json) : P Json := do
             outs := outs.push (Json.mkObj [("r", r), ("log", .arr (s'.mem.world.log.reverse.map callRecToJson).toArray),
               ("steps", toJson n), ("den", resToJson (vden g dcfg)), ("sig", toJson g.signature),
               ("graph_ok", .bool g.okB), ("call_ok", .bool (g.callOKB env)),
+              ("decoded", match hden g dcfg with
+                | .ok h => if g.plainB dcfg then valToJson (decode h) else .null
+                | .error _ => .null),
               ("sizes", toJson (w.stores.map fun s => s.table.length))])
         else if t == "hash" then
           match g.getHash env w0 FUEL with
